@@ -3,7 +3,7 @@ CONSTANTS
   SpuriousPass = FALSE
   AllSchedules = FALSE
   PermuteModules = TRUE
-  NB0 = {0, 1, 2, 3}
+  NB0 = {0, 1, 2, 3, 4}
   Variants = {"none", "same", "ext", "extm0", "emptyblk", "trunc", "short", "swap", "rename", "recv", "ptype", "pcount", "ret", "cc", "argname", "vis", "doc"}
   WithB1 = {FALSE, TRUE}
   B1Vft = {FALSE, TRUE}
